@@ -8,7 +8,7 @@ from vlib.par import pmap
 
 PROPERTY = 'C08'
 LEVEL = 'other'
-TARGETS = [('fixedkeydict', 'graphtage.FixedKeyDictNode._child_edits'), ('nodes', 'graphtage.ListNode.edits'),
+TARGETS = [('fixedkeydict', 'graphtage.FixedKeyDictNode._child_edits'), ('equality', 'sequences.SequenceNode.__eq__'), ('nodes', 'graphtage.ListNode.edits'),
            ('nodes', 'graphtage.KeyValuePairEdit.__init__')]
 TRUSTED = ['DictNode.from_dict sorts the pairs (sorted() is an ordered permutation; total order on string keys) - not under contract',
            'MappingNode lookups against a ghost item list', 'C02 cost positivity for the "swap costs > 0" clause']
